@@ -236,7 +236,7 @@ pub fn check(s: &Scenario) -> CheckResult {
 }
 
 fn triple() -> BoxedStrategy<[f32; 3]> {
-    [gen::moderate(), gen::moderate(), gen::moderate()].boxed()
+    [gen::wide(), gen::wide(), gen::wide()].boxed()
 }
 fn feed() -> BoxedStrategy<Feed> {
     let w = || proptest::option::weighted(0.45, (triple(), any::<u8>()));
